@@ -224,7 +224,7 @@ class Kripke(DiGraph):
 
         return R_graph.get_reachable_set_from(F_set)
 
-    def label_fair_states(self, F):
+    def label_fair_states(self, F, avoid=None):
         r''' Label all the fair states by a new atomic proposition.
 
         This method labels all the states from which a fair path exists by
@@ -233,10 +233,15 @@ class Kripke(DiGraph):
 
         :param F: a container of fairness constraints
         :type F: a container
+        :param avoid: names that must not be used for the new label (e.g.,
+                      the atomic propositions of the formula to be checked)
+        :type avoid: a container of str
         :returns: a new label that means "there exists a fair path from here"
         :rtype: str
         '''
         labels = self.labels()
+        if avoid is not None:
+            labels.update(avoid)
         i = 0
         f_label = 'fair'
         while f_label in labels:
